@@ -287,6 +287,7 @@ func c16Items() []c16Item {
 		{b: fr(0x0999, "0102030405060708090a"), wellUDP: true, wellTCP: true, name: "service-type-the-library-does-not-decode"},
 		{b: pack(&knxnet.DiscReq{Channel: 3, Control: knxnet.HostInfo{Protocol: knxnet.UDP4, Port: 3671}}), wellUDP: true, wellTCP: true, name: "DiscReq-endpoint-0.0.0.0-with-a-port"},
 		{b: fs[1], foreign: true, wellTCP: true, name: "TunnelRes-from-foreign-source"},
+		{b: fr(0x0206, "0524"), wellUDP: true, wellTCP: true, name: "ConnRes-refusal-that-names-a-channel"},
 		{b: fr(0x0206, ""), name: "ConnRes-empty-body"},
 		{b: fr(0x0206, "05"), name: "ConnRes-1-octet-body"},
 		{b: hx("0510 0208 0008 0100"), tcpFatal: true, name: "header-length-5"},
